@@ -202,6 +202,8 @@ def units(tier):
     gens = 'AG' if tier == 'quick' else FAMILY
     us += [('model', g, conv) for g in gens
            for conv in ([0] if g in 'IJ' else ([0, 2] if tier == 'quick' else [0, 1, 2, 3]))]
+    us += [('edit', g, conv) for g in ('AJ' if tier == 'quick' else 'AGJK')
+           for conv in ([0] if g in 'IJ' else ([0, 2] if tier == 'quick' else [0, 1, 2, 3]))]
     return us
 
 
@@ -391,6 +393,71 @@ def check_incon(new, src_before, src_after, ps, pt, nvar, mp):
     return None
 
 
+def edited_value(k, i):
+    """The value written into variable i of the k-th block of a result: distinct per (block, variable) and
+    different from every value a source or the default atmosphere state holds."""
+    return -(1000.0 * (k + 1) + i + 0.25)
+
+
+def check_result_edit(src, tgt, ps, pt, nvar, states, atmclass, sfx, what, rec=None):
+    """No interference between results (wave 7): transfer; edit EVERY variable of EVERY block of the result in place
+    (through the documented blk[i] = value; defaulted / broadcast / averaged atmosphere blocks included); then
+      * every block of the result shows the values written into IT (no two result blocks share their state),
+      * the source shows what it showed before (a result does not share its state with the source),
+      * a transfer of an equal, freshly built source between the same geometries gives what the first gave,
+      * and that later transfer leaves the edited first result as it was.
+    Every clause is reported on its own (they have independent causes).  Returns list of (sig, what)."""
+    from t2incons import t2incon
+    out = []
+    tag = atmclass + sfx + ',after=result-edited'
+    inc = make_incon(ps, nvar, states)
+    before = snapshot(inc)
+    new = t2incon()
+    try:
+        with quiet():
+            with core.timelimit(120):
+                new.transfer_from(inc, src, tgt)
+        first = snapshot(new)
+        want = []
+        for k, b in enumerate(new):
+            for i in range(len(b.variable)):
+                b[i] = edited_value(k, i)
+            st = first[k]
+            want.append((st[0], tuple(edited_value(k, i) for i in range(len(st[1])))) + st[2:])
+        shown = snapshot(new)
+        if shown != want:
+            bad = [(w[0], g[1]) for w, g in zip(want, shown) if w != g][:1]
+            out.append(('C19|t2incon.transfer_from|result-blocks-share-state|' + tag,
+                        '%s: after every block of the result was given its own values in place, block %r shows %r, the '
+                        'values written into another block' % (what, bad[0][0], bad[0][1])))
+        if snapshot(inc) != before:
+            out.append(('C19|t2incon.transfer_from|result-shares-state-with-source|' + tag,
+                        '%s: editing the blocks of the result in place changed the source initial conditions' % what))
+        inc2 = make_incon(ps, nvar, states)
+        again = t2incon()
+        with quiet():
+            with core.timelimit(120):
+                again.transfer_from(inc2, src, tgt)
+        if rec is not None:
+            rec.count('incon_transfers_after_result_edited', 1)
+            rec.count('blocks_compared', 3 * len(pt['names']))
+        second = snapshot(again)
+        if second != first:
+            bad = [(a, b) for a, b in zip(first, second) if a != b][:1]
+            out.append(('C19|t2incon.transfer_from|second-call-differs|' + tag,
+                        '%s: after the first result was edited in place, a transfer of an equal fresh source gives %r '
+                        'where the first transfer gave %r' % (what, bad[0][1][:2] if bad else len(second),
+                                                              bad[0][0][:2] if bad else len(first))))
+        if snapshot(new) != shown:
+            out.append(('C19|t2incon.transfer_from|first-result-altered|' + tag,
+                        '%s: the later transfer changed the (edited) result of the first' % what))
+    except core.CaseTimeout:
+        out.append(('C19|t2incon.transfer_from|timeout|' + tag, 'transfer_from did not return within 120 s'))
+    except Exception as e:
+        out.append(('C19|t2incon.transfer_from|exception:%s|%s' % (type(e).__name__, tag), '%s raised %r' % (what, e)))
+    return out
+
+
 def run_map_case(s, t, cs, ct, ats, att, variant, rec=None, full=False):
     """One (pair, conventions, atmosphere types) case: mapping + incon transfers for 1..5 variables.
     variant: 'copy' (separate objects) or 'self' (the same object as source and target).
@@ -527,6 +594,12 @@ def run_map_case(s, t, cs, ct, ats, att, variant, rec=None, full=False):
                         break
                 if stop:
                     break
+                found = check_result_edit(src, tgt, ps, pt, nvar, states, atmclass, sfx,
+                                          '%s -> %s, %d variables, %s states' % (s, t, nvar, states), rec)
+                if found:
+                    out.extend(found)
+                    stop = True
+                    break
         if stop:
             break
     if given is not None:
@@ -621,6 +694,190 @@ def run_history_case(case, rec=None):
         if r is not None:
             out.append(('C19|t2incon.transfer_from|%s|%s,%s' % (r[0], r[2], cls), '%s -> %s: %s' % (s, t, r[1])))
             break
+    return out
+
+
+# ------------------------------------------------------------------- geometries reached through the library's edits
+
+EDIT_OPS = ('rename-column-first', 'rename-column-middle', 'rename-column-last', 'rename-column-cycle',
+            'rename-column-reverse', 'rename-column-each', 'rename-layer-atm', 'rename-layer-first',
+            'rename-layer-middle', 'rename-layer-last', 'rename-layer-cycle', 'readd-column-first',
+            'readd-column-middle', 'readd-columns-reversed', 'delete-column-first', 'delete-column-middle',
+            'rename-column-first+readd-column-middle', 'readd-column-first+rename-column-middle')
+
+
+def fresh_names(existing, width, count):
+    """`count` names of the given width, of the kind (digits / letters) the existing ones are, none in use."""
+    import itertools
+    used = set(existing)
+    numeric = all(n.strip().isdigit() for n in existing if n.strip())
+    alphabet = '9876543210' if numeric else 'zyxwvutsrqponmlkjihgfedcba'
+    out = []
+    for tup in itertools.product(alphabet, repeat=width):
+        name = ''.join(tup)
+        if numeric and name[0] == '0':
+            continue
+        if name not in used:
+            out.append(name)
+            if len(out) == count:
+                return out
+    raise core.HarnessError('no unused name of width %d' % width)
+
+
+def apply_edit(geo, op):
+    """One of the library's own editing operations (or two in a row), in place."""
+    for part in op.split('+'):
+        cols = [c.name for c in geo.columnlist]
+        lays = [l.name for l in geo.layerlist]
+        n, kind, which = len(cols), part.rsplit('-', 1)[0], part.rsplit('-', 1)[1]
+        pick = {'first': 0, 'middle': n // 2, 'last': n - 1}
+        if kind == 'rename-column':
+            if which == 'cycle':
+                ok = geo.rename_column(cols, cols[1:] + cols[:1])
+            elif which == 'reverse':
+                ok = geo.rename_column(cols, cols[::-1])
+            elif which == 'each':           # one call per column, last column first, each to an unused name
+                new = fresh_names(cols, geo.colname_length, n)
+                ok = all([geo.rename_column(cols[k], new[k]) for k in reversed(range(n))])
+            else:
+                ok = geo.rename_column(cols[pick[which]], fresh_names(cols, geo.colname_length, 1)[0])
+        elif kind == 'rename-layer':
+            m = len(lays)
+            if which == 'cycle':            # the layers below the atmosphere layer exchange their names
+                ok = geo.rename_layer(lays[1:], lays[2:] + lays[1:2])
+            else:
+                k = {'atm': 0, 'first': 1, 'middle': m // 2, 'last': m - 1}[which]
+                ok = geo.rename_layer(lays[k], fresh_names(lays, geo.layername_length, 1)[0])
+        elif kind == 'readd-column':        # taken out and put back: it is then the last column
+            col = geo.columnlist[pick[which]]
+            geo.delete_column(col.name)
+            geo.add_column(col)
+            ok = True
+        elif kind == 'readd-columns':       # all taken out, put back in the opposite order
+            objs = list(geo.columnlist)
+            for col in objs:
+                geo.delete_column(col.name)
+            for col in reversed(objs):
+                geo.add_column(col)
+            ok = geo.num_columns == n
+        elif kind == 'delete-column':
+            geo.delete_column(cols[pick[which]])
+            ok = True
+        else:
+            raise core.HarnessError('unknown edit %r' % part)
+        if not ok:
+            raise core.HarnessError('edit %r was refused by the library' % part)
+        geo.setup_block_name_index()
+        geo.setup_block_connection_name_index()
+
+
+_edited = {}
+
+
+def edited(base, conv, op, slot=0):
+    """The base geometry after the edit (slot 1: an equal, separate object).  Only the geometries of one
+    (base, convention) are kept; none of the id()-keyed caches is used for them."""
+    if base in 'IJ':
+        conv = 0
+    if _edited.get('of') != (base, conv):
+        _edited.clear()
+        _edited['of'] = (base, conv)
+    key = (op, slot)
+    if key not in _edited:
+        if slot == 0:
+            b = geometry(base, conv, 0)
+            set_atm(b, 1)
+            geo = deep(b)
+            with quiet():
+                apply_edit(geo, op)
+        else:
+            geo = deep(edited(base, conv, op, 0))
+        _edited[key] = geo
+    return _edited[key]
+
+
+def edit_partners(base, tier):
+    if base in 'IJ':
+        return (base, 'A') if tier == 'quick' else (base, 'A', 'B', 'I' if base == 'J' else 'J')
+    return (base, 'B', 'C') if tier == 'quick' else (base, 'B', 'C', 'L', 'J')
+
+
+def edit_cases(base, conv, tier):
+    for op in EDIT_OPS:
+        yield {'kind': 'edit', 'g': base, 'conv': conv, 'op': op, 'role': 'self', 'partner': base}
+        yield {'kind': 'edit', 'g': base, 'conv': conv, 'op': op, 'role': 'copy', 'partner': base}
+        for p in edit_partners(base, tier):
+            yield {'kind': 'edit', 'g': base, 'conv': conv, 'op': op, 'role': 'as-source', 'partner': p}
+            yield {'kind': 'edit', 'g': base, 'conv': conv, 'op': op, 'role': 'as-target', 'partner': p}
+
+
+def run_edit_case(case, rec=None):
+    """A geometry reached through the library's own edits (columns / layers renamed, columns taken out and put
+    back) as both sides (the same object; an equal copy: identity), as source and as target of a family geometry
+    (its own unedited base included), all 3 x 3 atmosphere types: mapping and a transfer of 2-variable initial
+    conditions against the same brute-force reference, computed from the geometry as it now is."""
+    from t2incons import t2incon
+    base, conv, op, role, partner = case['g'], case['conv'], case['op'], case['role'], case['partner']
+    geo = edited(base, conv, op)
+    if role == 'self':
+        src = tgt = geo
+    elif role == 'copy':
+        src, tgt = geo, edited(base, conv, op, 1)
+    elif role == 'as-source':
+        src, tgt = geo, geometry(partner, conv, 0)
+    else:
+        src, tgt = geometry(partner, conv, 0), geo
+    same = role in ('self', 'copy')
+    tag = ',geometry=%s,%s' % (op, role)
+    label = '%s(%s) %s %s' % (op, base, role, partner)
+    out, mp = [], None
+    for ats in (0, 1, 2):
+        for att in (0, 1, 2):
+            if role == 'self' and ats != att:
+                continue
+            set_atm(src, ats)
+            set_atm(tgt, att)
+            ps, pt = plain(src), plain(tgt)
+            if mp is None:
+                mp = mm.Mapper(pt['cols'], pt['lays'], ps['cols'], ps['lays'], ps['scale_xy'], ps['scale_z'])
+            atmclass = 'atm %d->%d' % (ats, att)
+            try:
+                with quiet():
+                    with core.timelimit(120):
+                        mapping, colmap = src.block_mapping(tgt, True)
+            except Exception as e:
+                out.append(('C19|block_mapping|exception:%s|%s' % (type(e).__name__, atmclass + tag),
+                            'block_mapping(%s) raised %r' % (label, e)))
+                continue
+            if rec is not None:
+                rec.count('edited_geometry_mappings', 1)
+                rec.count('blocks_compared', 2 * len(pt['names']))
+            r = check_mapping(mapping, ps, pt, same, mp)
+            if r is not None:
+                out.append(('C19|block_mapping|%s|%s' % (r[0], r[2] + tag), '%s: %s' % (label, r[1])))
+                continue
+            inc = make_incon(ps, 2)
+            before = snapshot(inc)
+            new = t2incon()
+            try:
+                with quiet():
+                    with core.timelimit(120):
+                        new.transfer_from(inc, src, tgt)
+            except Exception as e:
+                out.append(('C19|t2incon.transfer_from|exception:%s|%s' % (type(e).__name__, atmclass + tag),
+                            'transfer_from(%s) raised %r' % (label, e)))
+                continue
+            r = check_incon(new, before, snapshot(inc), ps, pt, 2, mp)
+            if r is not None:
+                out.append(('C19|t2incon.transfer_from|%s|%s' % (r[0], r[2] + tag), '%s: %s' % (label, r[1])))
+            elif same:
+                # identity on equal grids: every block has the state of the block of its own name
+                state = dict((b[0], b) for b in before)
+                for b in snapshot(new):
+                    if b[0] in pt['under'] and b[1:] != state[b[0]][1:]:
+                        out.append(('C19|t2incon.transfer_from|identity|underground' + tag,
+                                    '%s: block %r got %r, its own state is %r' % (label, b[0], b[1], state[b[0]][1])))
+                        break
     return out
 
 
@@ -1009,6 +1266,8 @@ def run_case(case, rec=None):
         return run_history_case(case, rec)
     if case['kind'] == 'section':
         return run_section_case(case, rec)
+    if case['kind'] == 'edit':
+        return run_edit_case(case, rec)
     if case['kind'] == 'map':
         return run_map_case(case['s'], case['t'], case['cs'], case['ct'], case['ats'], case['att'], case['variant'], rec,
                             bool(case.get('full')))
@@ -1019,6 +1278,8 @@ def run_unit(unit, tier, rec):
     n = 0
     if unit[0] == 'map':
         cases = map_cases(unit[1], unit[2], tier)
+    elif unit[0] == 'edit':
+        cases = edit_cases(unit[1], unit[2], tier)
     else:
         cases = model_cases(unit[1], unit[2])
     for case in cases:
